@@ -23,7 +23,7 @@
     [C04_mux_deadlock_in_model] records that with remote connections multiplexed per
     (block pair, host pair) the obligations cannot hold: the model has a reachable stuck state. *)
 From Noir Require Import Base.Elem Model.Start Model.BinaryStart Model.Net
-  Proofs.StartSpec Proofs.NetProofs Proofs.NetDagProofs.
+  Proofs.StartSpec Proofs.NetProofs Proofs.NetDagProofs Proofs.NetLoopProofs.
 From Coq Require Import List Arith.
 Import ListNotations.
 Open Scope nat_scope.
@@ -147,7 +147,35 @@ Proof. exact mux_hol_deadlock. Qed.
 Theorem C04_mux_join_deadlock_in_model : exists s, reachable mux_join_net s /\ stuck mux_join_net s.
 Proof. exact mux_join_deadlock. Qed.
 
+(** ---- loops (instances of the same network model with the loop heads, the feedback edge and
+    the leader as nodes; Proofs/NetLoopProofs.v) ----
+    replay: head, 2 body replicas behind a shuffle, leader, 2 rounds, capacity 1 — for EVERY
+    routing of the data no reachable state is stuck and every execution terminates (exhaustive
+    enumeration inside Coq, lifted by [check_net_sound]) *)
+Theorem C04_replay_instance_no_deadlock : forall rt, length rt = 4 -> Forall (fun c => c < 2) rt ->
+  terminating (replay_gen rt 2 1 2) (n_init (replay_gen rt 2 1 2)) /\
+  (forall s, reachable (replay_gen rt 2 1 2) s -> ~ stuck (replay_gen rt 2 1 2) s).
+Proof. exact replay_any_routing. Qed.
+(** iterate: with a body that does not expand, no deadlock and termination ... *)
+Theorem C04_iterate_instance_no_expansion : 
+  (forall s, reachable iter_net_k1 s -> ~ stuck iter_net_k1 s) /\ terminating iter_net_k1 (n_init iter_net_k1).
+Proof. split; [exact iter_net_k1_no_deadlock | exact iter_net_k1_terminates]. Qed.
+(** ... but a body that emits more per pulled element than the channels on the feedback cycle
+    hold deadlocks (known finding F9): the head blocks sending into the body while it is the
+    only reader of the full feedback channel. Capacity 1 and 2 outputs per element; with
+    capacity 2, 2 outputs are safe and 3 deadlock (threshold capacity + 1; the engine: 17),
+    under the semantics in which the head leaves its non-blocking drain only with an empty
+    feedback channel ([greachable _ iter_guard]) *)
+Theorem C04_iterate_feedback_deadlock_in_model :
+  exists s, greachable iter_net iter_guard s /\ stuck iter_net s.
+Proof. exact iterate_feedback_deadlock_faithful. Qed.
+Theorem C04_iterate_threshold_safe :
+  forall s, greachable iter_net_c2_k2 iter_guard s -> ~ gstuck iter_net_c2_k2 iter_guard s.
+Proof. exact iter_net_c2_k2_faithful_no_deadlock. Qed.
+
 Print Assumptions C04_no_deadlock.
+Print Assumptions C04_replay_instance_no_deadlock.
+Print Assumptions C04_iterate_feedback_deadlock_in_model.
 Print Assumptions C04_mux_join_deadlock_in_model.
 Print Assumptions C04_dag_no_deadlock.
 Print Assumptions C04_dag_job_terminates.
